@@ -116,6 +116,39 @@ func runReadStorm(r *common.Run, sk *sink, caseNo int, rng *rand.Rand, seed int6
 			}
 		}(g)
 	}
+	// two clients that give up on their reads: ReadIndex on the slow follower, no look at the result
+	// channel, Release after about the time a confirmation takes. A request object released with an
+	// unconsumed result goes back to the pool; the read that gets it next must still be confirmed
+	// and wait for its index.
+	for g := 0; g < 2; g++ {
+		wg.Add(1)
+		go func(g int) {
+			defer wg.Done()
+			prng := rand.New(rand.NewSource(seed + 300 + int64(g)))
+			for {
+				select {
+				case <-stopW:
+					return
+				default:
+				}
+				nh := c.Hosts[2].NodeHost()
+				if nh == nil {
+					return
+				}
+				rs, err := nh.ReadIndex(shardID, time.Second)
+				if err != nil {
+					time.Sleep(time.Millisecond)
+					continue
+				}
+				time.Sleep(time.Duration(prng.Intn(8000)) * time.Microsecond)
+				if len(rs.CompletedC) > 0 {
+					sk.Count("reads_released_with_an_unconsumed_result", 1)
+				}
+				rs.Release()
+				time.Sleep(time.Duration(10+prng.Intn(20)) * time.Millisecond)
+			}
+		}(g)
+	}
 	rg.Wait()
 	close(stopW)
 	wg.Wait()
